@@ -575,6 +575,14 @@ pub fn catch<T>(f: impl FnOnce() -> T) -> Caught<T> {
     }
 }
 
+/// Signature of a panic in the code under test: source file (no line number,
+/// so unrelated edits do not change it) plus the first line of the message.
+pub fn panic_signature(location: &str, message: &str) -> String {
+    let file = location.rsplit_once(':').map_or(location, |(f, _)| f);
+    let first_line = message.lines().next().unwrap_or("");
+    format!("panic@{file}|{}", truncate(first_line, 80))
+}
+
 /// A failed oracle clause.
 #[derive(Debug, Clone)]
 pub struct Fail {
@@ -624,7 +632,7 @@ pub fn run_case(
         }
         Caught::SubjectPanic { location, message } => {
             ctx.violation(
-                &format!("panic@{location}"),
+                &panic_signature(&location, &message),
                 &format!("code under test panicked at {location}: {message}"),
                 json!({"case_index": index, "case_seed": case_seed, "case": describe(),
                        "panic_location": location, "panic_message": message}),
